@@ -26,7 +26,7 @@ FAMS = ("qp", "qp_quartic", "rosenbrock", "exp_wall", "rastrigin", "styblinski_t
 
 def floors(tier):
     f = {"results_judged": 1500, "restart_results_judged": 500, "restart_below_checkpoint_nit": 100, "early_return_on_restart": 40,
-         "callable_stop_criteria_runs": 200, "runs_with_objective_redefined": 150, "objective_redefined_at_a_stationary_point_of_the_old_one": 60,
+         "callable_stop_criteria_runs": 200, "runs_with_logger": 300, "runs_with_objective_redefined": 150, "objective_redefined_at_a_stationary_point_of_the_old_one": 60,
          "runs_on_domain_restricted_objective": 60, "__nontrivial__": 25}
     for k in MESSAGES:
         f["msg:" + k] = 5
@@ -55,6 +55,9 @@ def cases(tier, seed):
         }
         if rng.random() < 0.2:
             cfg["scaler"] = float(np.exp(rng.uniform(np.log(1e-2), np.log(1e2))))
+        if i % 3 == 2:
+            cfg["logger"] = True  # a user-supplied logger at various verbosity levels
+            cfg["iprint"] = int(gen.pick(rng, [-1, 0, 1, 50, 99, 101]))
         restarts = []
         for _ in range(int(rng.integers(1, 3))):
             restarts.append({"dnit": int(rng.integers(-3, 3)), "raise_maxfun": bool(rng.random() < 0.5),
@@ -255,6 +258,8 @@ def run(spec):
     if spec.get("ufd"):
         P = install_switch(P, spec["ufd"], cfg, hooks, out)
         tags = dict(tags, update_fun_def=True)
+    if cfg.get("logger"):
+        out.count("runs_with_logger")
     tr = probes.run_min(P, cfg, hooks=hooks)
     if spec.get("ufd"):
         out.count("runs_with_objective_redefined" if P.on else "runs_with_update_function_never_switching")
